@@ -40,6 +40,12 @@ def gen_plan(rng, tier: str, idx: int) -> dict:
     probs = [rng.uniform(0.2, 1.0) for _ in range(k)]
     tot = sum(probs)
     kind = rng.choice(["finite_given", "finite_extracted", "bernoulli_extracted", "bernoulli_given"])
+    if kind.startswith("finite") and rng.random() < 0.4:
+        # an outcome with prior probability exactly zero ("for all prior probabilities"): its
+        # joint density is zero, so it must never be drawn - wherever it sits in the outcome set
+        z = rng.choice([0, 0, k - 1, rng.randrange(k)])
+        probs[z] = 0.0
+        tot = sum(probs)
     return {"sub": "discrete", "kind": kind, "outcomes": outcomes, "probs": [round(p / tot, 4) for p in probs], "p1": round(rng.uniform(0.1, 0.9), 3),
             "n": rng.randint(1, 8), "slope": round(rng.uniform(-1.5, 1.5), 3), "mu": round(rng.uniform(-1, 1), 3), "s": rng.choice([0.7, 1.0, 2.0]),
             "lik": rng.choice(["normal", "poisson", "none"]), "latent": rng.random() < 0.5, "w": round(rng.uniform(-2.5, 2.5), 3), "current": rng.randrange(k), "data_seed": rng.randrange(10**6), "seed": rng.randrange(2**31), "N": N}
@@ -231,6 +237,8 @@ def run_discrete(plan, V, log, counters):
         V.add("draws", label, f"{int((~known).sum())} draws are not members of the outcome set {o.tolist()}")
     counters["statistics_tested"] = St.count
     counters["worst_deviation_over_bound_x1000"] = int(1000 * St.worst)
+    counters["probe.zero_probability_outcome"] = int(any(p_ == 0 for p_ in probs))
+    counters["probe.zero_probability_first_outcome"] = int(probs[0] == 0)
     counters["probe.outcomes_extracted_from_prior"] = int(not given)
     counters["probe.downstream_likelihood"] = int(plan["lik"] != "none")
     counters["probe.feeds_prior_of_another_parameter"] = int(bool(plan.get("latent")))
